@@ -845,10 +845,55 @@ def check_flatten(ck, sp):
             ck.control(f"control.{fam}.prefix_determines_sample@{sp_label(sp)}", part, same_x)
 
 
+def check_flatten_dict_orders(ck, sp):
+    """A Dict member is a mapping: membership compares key sets, so the same space has members whose keys were inserted in another order.  The flat
+    vector must still determine the sample: a member in the space's key order and a member in the REVERSED key order that flatten to the same vector
+    are the same mapping."""
+    from collections import OrderedDict
+    x = example_member(sp)
+    xr = OrderedDict(reversed(list(x.items())))
+    tr = trace(flatten_fn, sp, x, argnames=["sp", "x"], label="Dict.flatten_sample (member in the space's key order)")
+    trr = trace(flatten_fn, sp, xr, argnames=["sp", "x"], label="Dict.flatten_sample (member with reversed key order)")
+    tr._argnames = ["sp", "x"]
+    trr._argnames = ["sp", "x"]
+    ck.encoded(trr)
+    if len(tr.out_avals) != 1 or len(trr.out_avals) != 1 or tuple(trr.out_avals[0].shape) != (sp.flat_size,):
+        ck.fact(f"Dict.flatten_size.any_key_order@{sp_label(sp)}", False, f"reversed-order member flattens to {[str(a) for a in trr.out_avals]}, flat_size={sp.flat_size}")
+        return
+    it = Interp()
+    S1 = tr.symbols(it, prefix="p_")
+    S2 = trr.symbols(it, prefix="q_")
+    for n in trr.in_names:
+        if n.startswith("sp"):
+            S2[n] = S1[n]
+    f1 = tr.run(it, S1)[tr.out_names[0]]
+    f2 = trr.run(it, S2)[trr.out_names[0]]
+    x1, x2 = tree_of(tr, S1, "x"), tree_of(trr, S2, "x")
+    names = [n for n in tr.in_names if n.startswith("x_")]
+    same_flat = conj([core.eq_elem(a, b) for a, b in zip(f1, f2)])
+    same_map = conj([core.eq_elem(a, b) for n in names for a, b in zip(S1[n].reshape(-1), S2[n].reshape(-1))])
+    assume = [r_member(sp, x1, S1), r_member(sp, x2, S2), same_flat]
+
+    def rp(res):
+        (sp_c, a), _ = model_args(tr, S1, res)
+        (_, b), _ = model_args(trr, S2, res)
+        fa, fb = np.asarray(sp_c.flatten_sample(a)), np.asarray(sp_c.flatten_sample(b))
+        differ = any(not np.array_equal(np.asarray(a[k]), np.asarray(b[k])) for k in a) if not any(isinstance(a[k], (dict, tuple)) for k in a) else \
+            any(not np.array_equal(np.asarray(u), np.asarray(v)) for k in a for u, v in zip(jax.tree_util.tree_leaves(a[k]), jax.tree_util.tree_leaves(b[k])))
+        return (differ and np.array_equal(fa, fb) and py_member(sp_c, a) and py_member(sp_c, b)), \
+            {"space": repr(sp_c), "member_in_space_order": describe(a), "member_in_reversed_order": describe(b), "flat_a": fa.tolist(), "flat_b": fb.tolist()}
+    ck.prove(f"Dict.flatten_injective.any_key_order@{sp_label(sp)}", assume, same_map, replay=rp)
+    ck.witness(f"witness.Dict.reordered_member@{sp_label(sp)}", [r_member(sp, x2, S2)])
+
+
 def sec_flatten(ck):
     for sp in member_spaces(ck.thorough):
         with ck.section(f"flatten {sp_label(sp)}"):
             check_flatten(ck, sp)
+    for sp in [Dict({"a": Discrete(3), "b": Discrete(3)}), Dict({"a": MultiDiscrete((2, 2)), "b": MultiBinary(2)})] + \
+            ([Dict({"p": Box(0.0, 1.0), "q": Box(0.0, 1.0), "r": Discrete(2)})] if ck.thorough else []):
+        with ck.section(f"flatten-orders {sp_label(sp)}"):
+            check_flatten_dict_orders(ck, sp)
 
 
 # ===================================================================== Box.__eq__ (Python bool computed from array comparisons: path-forking trace)
